@@ -613,8 +613,8 @@ func collect(c *Case, rec *recorder) CallObs {
 		}
 		switch nd.Kind {
 		case "comp", "relay":
-			if rec.ran[name] != want {
-				extra = append(extra, fmt.Sprintf("node %s executed %d times (expected %d)", name, rec.ran[name], want))
+			if rec.ran[name] != want*execsPerRun(nd) {
+				extra = append(extra, fmt.Sprintf("node %s executed %d times (expected %d)", name, rec.ran[name], want*execsPerRun(nd)))
 			}
 			vals := []int{}
 			for k, d := range rec.delivs[name] {
